@@ -35,6 +35,7 @@ enum Deco {
     Not,
     NegNeg,
     NotNeg,
+    NotNot,
 }
 fn deco(d: Deco, e: Ast) -> Ast {
     match d {
@@ -43,6 +44,7 @@ fn deco(d: Deco, e: Ast) -> Ast {
         Deco::Not => Ast::Not(Box::new(e)),
         Deco::NegNeg => Ast::Neg(Box::new(Ast::Neg(Box::new(e)))),
         Deco::NotNeg => Ast::Not(Box::new(Ast::Neg(Box::new(e)))),
+        Deco::NotNot => Ast::Not(Box::new(Ast::Not(Box::new(e)))),
     }
 }
 
@@ -179,7 +181,7 @@ fn expr_case(ast: &Ast, l: &mut Local) {
 pub fn expr_sources(quick: bool, i: u64) -> (u64, Option<String>, String) {
     let plain = vec![Deco::None];
     let three = vec![Deco::None, Deco::Neg, Deco::Not];
-    let five = vec![Deco::None, Deco::Neg, Deco::Not, Deco::NegNeg, Deco::NotNeg];
+    let five = vec![Deco::None, Deco::Neg, Deco::Not, Deco::NegNeg, Deco::NotNeg, Deco::NotNot];
     let mut fams: Vec<(usize, Vec<Deco>, Vec<Deco>)> = vec![(1, three.clone(), five.clone()), (2, three.clone(), three.clone()), (3, plain.clone(), plain.clone())];
     if !quick {
         fams.push((3, three.clone(), plain.clone()));
@@ -254,7 +256,7 @@ pub const CORPUS: &[(&str, &str)] = &[
     ("mixed-matrix", "min sum(i in 0..2, j in 0..2) { M[i][j] * x_i } + k * x_0 + T[1][0][1] * x_1\ns.t.\n    x_i >= M[i][0] for i in 0..2\n    x_0 <= M[1][1] + len(M[0])\nwhere\n    let M = [[1, 2], [3, 4.5]]\n    let T = [[[1, 2], [3, 4]], [[5, 6.5], [7, 8]]]\n    let k = M[0][1]\ndefine\n    x_i as Real(0, 20) for i in 0..2\n"),
     ("named-logic-assertions", "solve\ns.t.\n    pick: a_0 xor b_0\n    one_i: a_i implies not b_i for i in 0..2\n    both: (a_0 or b_1) and not (a_1 and b_0)\n    a_1 iff b_1\ndefine\n    a_i, b_i as Boolean for i in 0..2\n"),
     ("zip-unequal-lengths", "min sum((p, q) in zip(A, B)) { p * x + q } + sum((q, p) in zip(B, A)) { q * x } + sum((p, q, r) in zip(A, B, C)) { (p + q + r) * x }\ns.t.\n    x >= p - q for (p, q) in zip(A, B)\nwhere\n    let A = [1, 2, 3]\n    let B = [4, 5]\n    let C = [6]\ndefine\n    x as Real(0, 9)\n"),
-    ("function-constants", "min sum(i in R) { x_i } + sum((v, k) in EN) { v * x_k } + L * x_0\ns.t.\n    x_i >= 1 for i in R\n    x_0 <= len(range(0, 4, true)) + len(U)\nwhere\n    let R = range(0, 3, false)\n    let EN = enumerate([4, 5])\n    let L = len([1, 2])\n    let U = union([1, 2], [2, 3])\ndefine\n    x_i as Real(0, 9) for i in 0..3\n"),
+    ("function-constants", "min sum(i in R) { x_i } + sum((v, k) in EN) { v * x_k } + L * x_0\ns.t.\n    x_i >= 1 for i in R\n    x_i <= 8 for i in range(0, 2, closed)\n    x_i >= 0 for i in range(1, 2, not closed)\n    x_0 <= len(range(0, 4, true)) + len(U)\nwhere\n    let R = range(0, 3, false)\n    let closed = true\n    let EN = enumerate([4, 5])\n    let L = len([1, 2])\n    let U = union([1, 2], [2, 3])\ndefine\n    x_i as Real(0, 9) for i in 0..3\n"),
     ("long-multibyte-line", "min sum((c, i) in enumerate([\"\u{141}\u{f3}d\u{17a}\", \"K\u{f8}benhavn\", \"\u{17d}ilina\", \"\u{10c}esk\u{e9} Bud\u{11b}jovice\", \"\u{c5}lesund\", \"\u{d3}buda\", \"\u{15e}anl\u{131}urfa\"])) { (i + 1) * x_i }\ns.t.\n    x_i >= len([\"\u{141}\u{f3}d\u{17a}\", \"K\u{f8}benhavn\", \"\u{17d}ilina\", \"\u{10c}esk\u{e9} Bud\u{11b}jovice\", \"\u{c5}lesund\", \"\u{d3}buda\", \"\u{15e}anl\u{131}urfa\"]) - 7 for i in 0..7\ndefine\n    x_i as Real(0, 9) for i in 0..7\n"),
     ("long-multibyte-line-shifted", "min  sum((c, i) in enumerate([\"\u{141}\u{f3}d\u{17a}\", \"K\u{f8}benhavn\", \"\u{17d}ilina\", \"\u{10c}esk\u{e9} Bud\u{11b}jovice\", \"\u{c5}lesund\", \"\u{d3}buda\", \"\u{15e}anl\u{131}urfa\"])) { (i + 1) * x_i }\ns.t.\n     x_i >= len([\"\u{141}\u{f3}d\u{17a}\", \"K\u{f8}benhavn\", \"\u{17d}ilina\", \"\u{10c}esk\u{e9} Bud\u{11b}jovice\", \"\u{c5}lesund\", \"\u{d3}buda\", \"\u{15e}anl\u{131}urfa\"]) - 7 for i in 0..7\ndefine\n    x_i as Real(0, 9) for i in 0..7\n"),
 ];
@@ -268,7 +270,7 @@ pub fn run(mut run: Run) -> ! {
     // printer self-check + format checks
     let plain = [Deco::None];
     let three = [Deco::None, Deco::Neg, Deco::Not];
-    let five = [Deco::None, Deco::Neg, Deco::Not, Deco::NegNeg, Deco::NotNeg];
+    let five = [Deco::None, Deco::Neg, Deco::Not, Deco::NegNeg, Deco::NotNeg, Deco::NotNot];
     let mut fams: Vec<(String, usize, Vec<Deco>, Vec<Deco>)> = vec![
         ("E1-one-op-all-decorations".into(), 1, three.to_vec(), five.to_vec()),
         ("E2-two-ops-decorated".into(), 2, three.to_vec(), three.to_vec()),
